@@ -1,6 +1,7 @@
 import GluonModel.Sexp
 import GluonModel.Comments
 import GluonModel.PrettyDoc
+import GluonModel.KindSyntax
 open GluonModel GluonModel.Comments
 open GluonModel.PrettyDoc (Doc)
 
@@ -37,6 +38,19 @@ def renderAt (d : Doc) (w : Sexp) : String :=
     | some out => q out
     | none => "fail"
 
+/-- `T` Type, `R` Row, `H` Hole, `(fn K K)`. -/
+partial def parseKindSexp : Sexp → Option KindSyntax.Kind
+  | .atom "T" => some .type
+  | .atom "R" => some .row
+  | .atom "H" => some .hole
+  | .list [.atom "fn", a, r] => do pure (.fn (← parseKindSexp a) (← parseKindSexp r))
+  | _ => none
+
+def renderKindFmt (k : KindSyntax.Kind) : String :=
+  "(k " ++ q (KindSyntax.paramText k) ++ " " ++
+    (if KindSyntax.parseParam (KindSyntax.paramToks k) = some (k, []) then "same" else "changed")
+    ++ ")"
+
 def handle : List Sexp → String
   | .atom "render" :: d :: ws =>
     match parseDoc d with
@@ -46,6 +60,10 @@ def handle : List Sexp → String
   | [.atom "rev", .str s] => renderRun (backward s.toList)
   | [.atom "mix", .str s, .str pat] =>
     renderMixed (mixed (pat.toList.map (· == 'f')) s.toList)
+  | [.atom "kindfmt", k] =>
+    match parseKindSexp k with
+    | some k => renderKindFmt k
+    | none => "bad-kind"
   | _ => "bad-request"
 
 def main : IO Unit := driverLoop handle
